@@ -18,12 +18,18 @@ void vp_rng_seed(vp_rng_t* r, uint64_t seed, uint64_t stream)
 {
     uint64_t x = seed * 0x9E3779B97F4A7C15ull + stream * 0xD1B54A32D192ED03ull + 0x1234567;
     for (int i = 0; i < 4; i++) r->s[i] = splitmix(&x);
+    r->feed = 0; r->feed_n = 0;
 }
 
 static inline uint64_t rotl(uint64_t x, int k) { return (x << k) | (x >> (64 - k)); }
 
 uint64_t vp_rng_next(vp_rng_t* r)
 {
+    if (r->feed_n) {
+        uint64_t v = 0; size_t k = r->feed_n < 8 ? r->feed_n : 8;
+        memcpy(&v, r->feed, k); r->feed += k; r->feed_n -= k;
+        return v;
+    }
     uint64_t* s = r->s;
     uint64_t result = rotl(s[1] * 5, 7) * 9;
     uint64_t t = s[1] << 17;
@@ -81,10 +87,13 @@ void o_hex(vp_ctx_t* c, const uint8_t* p, size_t n)
     for (size_t i = 0; i < n; i++) { o_c(c, hx[p[i] >> 4]); o_c(c, hx[p[i] & 15]); }
 }
 
+int vp_abort_on_violation;
+
 void o_end(vp_ctx_t* c)
 {
     o_c(c, '\n');
     if (!c->quiet) vp_write(c->out, c->outn);
+    if (vp_abort_on_violation && c->outn > 2 && c->out[0] == 'V' && c->out[1] == '|') abort();
     c->outn = 0;
 }
 
